@@ -1,0 +1,27 @@
+//go:build verif
+
+package erasurecoding
+
+// Contracts checked by /verif/gocv (comment-only file; see /verif/DESIGN.md).
+//
+// C15 / C17 (BOUNDED stand-in, never counted as proved): the law is stated in zz_spec_verif.go over the real store.
+//@ func verifECFaultTolerance
+//@ mode nosafety
+//@ bounded 2500
+//@ ensures[C17:parity-many-faults-tolerated-more-never-lie] result
+//@ ensures[C15:erasure-coded-part-reads-back-exactly] result
+
+// KNOWN FINDING (see /verif/known-findings.json): the shard format has no end marker and no total length, so a part
+// whose shards all end at the same frame boundary is indistinguishable from a shorter part.
+//@ func verifECCutBetweenFrames
+//@ mode nosafety
+//@ bounded 400
+//@ ensures[C17:common-cut-between-frames-is-detected] result
+
+// KNOWN FINDING (see /verif/known-findings.json): the dataBytes field of a frame header is not covered by the frame's
+// hash and is taken from the first shard whose payload validates, so one flipped bit in it changes the length of the
+// decoded stripe although only one shard is damaged.
+//@ func verifECLengthFieldFlip
+//@ mode nosafety
+//@ bounded 400
+//@ ensures[C17:single-flipped-length-field-is-tolerated] result
